@@ -56,7 +56,10 @@ def nav(t, x, path):
 
 
 def assign(t, x, path, value):
-    """parent[path[-1]] = value through the public setters"""
+    """parent[path[-1]] = value through the public setters (the empty path: whole update of the object itself)"""
+    if not path:
+        x._update(value)
+        return
     pt, px = nav(t, x, path[:-1])
     if pt[0] == "U" and hasattr(px, "get") and type(px).__name__ == xt.build(pt).__name__:
         px = px.get()
